@@ -116,6 +116,9 @@ def canonical_subset(G):
             continue
         if n == c and c not in seen:
             seen[c] = 1
+    for extra in ('100000', '250000', '42195', '99999', '20000', '4x100000', '4x20000', '4x99999', '150000W'):
+        if U.check_event_code(extra) is not None:
+            seen.setdefault(extra, 1)
     S = list(seen)
     if len(S) > 3000:
         step = len(S) / 3000.0
@@ -142,6 +145,15 @@ def pair_work(chunk):
             if kb is None:
                 continue
             acc.n += 1
+            # the sorter itself on the pair, given in descending key order
+            if ka[:3] != kb[:3]:
+                lo_c, hi_c = (a, b) if ka[:3] < kb[:3] else (b, a)
+                try:
+                    out = U.sort_by_discipline([dict(discipline=hi_c), dict(discipline=lo_c)])
+                    if [t['discipline'] for t in out] != [lo_c, hi_c]:
+                        acc.bad('sorter-disagrees-with-sort-key', dict(a=lo_c, b=hi_c), 'sort_by_discipline puts %r before %r; keys %r / %r' % (hi_c, lo_c, ka[:3], kb[:3]))
+                except Exception as e:
+                    acc.bad('sort_by_discipline-raises:%s' % type(e).__name__, dict(a=a, b=b), repr(e))
             ra, rb = ka[3], kb[3]
             if ra != rb:
                 # family order: track < hurdles/steeple < jumps < throws < relays < other
@@ -206,7 +218,7 @@ def run(tier):
     if len(keys) == 8 and keys != sorted(keys):
         acc.bad('field-order-violated', dict(codes=FIELD_ORDER), 'keys %r' % (keys,))
     # the sorter: all lists of length <= 3 over a 12-element set with repeats and missing disciplines
-    pool = ['100', '110H', '3000SC', 'HJ', 'SP7.26K', '4x100', 'DEC', 'MILE', 'JT800', '5K', None, '']
+    pool = ['100', '110H', '3000SC', 'HJ', 'SP7.26K', '4x100', 'DEC', 'MILE', 'JT800', '5K', None, '', '100000', '20000', '4x100000', '4x20000']
 
     class Obj(object):
         def __init__(self, d):
@@ -237,7 +249,7 @@ def run(tier):
     c['language_strings'] = len(L)
     c['canonical_codes'] = len(S)
     c['rule'] = ('language of PAT_EVENT_CODE as for C07 (all skeletons x covering fills) through every function named in the statement; ordering clauses on '
-                 'all pairs of the canonical (already normalised, blank-free) subset; sorter on all lists of length <= 3 over 12 disciplines incl. None/empty; '
+                 'all pairs of the canonical (already normalised, blank-free) subset; sorter on all lists of length <= 3 over 16 disciplines incl. None/empty; '
                  'non-trivial = codes with a key / same-family pairs')
     c['exhaustive'] = True
     rep.assumptions += ['family of a code for the rank clause = first of throws, hurdles, jumps, relays, track that accepts it; distance-less track spellings '
